@@ -189,7 +189,7 @@ func (s String) with(at int, char rune) Set {
 	case 0 <= i && i < len(s.s) && s.s[i] == char:
 		return s
 	case i == len(s.s):
-		return String{s: append(s.s, char), offset: s.offset, holes: s.holes}
+		return String{s: append(s.s[:len(s.s):len(s.s)], char), offset: s.offset, holes: s.holes}
 	case at == s.offset-1:
 		return String{
 			s:      append(append(make([]rune, 0, 1+len(s.s)), char), s.s...),
